@@ -61,6 +61,12 @@ let run (path : string) =
                               match r with Some t -> String.make 1 (Char.chr (int_of_n t)) | None -> "-") ops in
         if List.exists (fun r -> r <> "-") res then incr nontriv;
         if mres <> res then begin mismatch ("store model=" ^ String.concat " " mres) line; fail "store-map-laws" line end
+      | "STD" :: rest ->
+        incr total; incr nontriv;
+        let tbl = Gw_io.kv_tbl rest in
+        if (try int_of_string (Hashtbl.find tbl "lost") with _ -> 1) <> 0 then begin
+          mismatch "store DeleteIf concurrent with Store lost the new entry" line;
+          fail "delete-if-not-atomic" line end
       | "STC" :: _ ->
         incr total; incr nontriv;
         if not (List.mem "linearizable=1" (split_on ' ' line)) then fail "store-not-linearizable" line
